@@ -524,3 +524,18 @@ Example ex_leaf_text_nonempty : leaf_text ex_opts LStr s_k_i s_k_i <> [].
 Proof. discriminate. Qed.
 Example ex_key_text_nonempty : s_k_i_closed <> [].
 Proof. discriminate. Qed.
+
+(* ------------------------------------------------------------------------------------------ *)
+(* escape is applied exactly once on every data path: the parser undoes one escape, and what it then sees -- every text node and
+   every attribute value -- is the data the view placed there (twice would leave entity text, not at all would not parse back) *)
+Definition attr_pairs_of : hnode -> list (str * str) := collect (fun _ _ attrs => attrs).
+
+Theorem tree_view_escape_exactly_once : forall o v,
+  exists d, parse_html (render (tree_view o v)) = Some d /\
+            flat_map texts_of d = filter nonempty (texts_of (tree_view o v)) /\
+            flat_map attr_pairs_of d = attr_pairs_of (tree_view o v).
+Proof.
+  intros o v. exists (normalize [tree_view o v]).
+  split; [apply render_parse, tree_view_names_ok|]. split; [apply normalize_texts, tv_sepb|].
+  unfold attr_pairs_of. rewrite collect_normalize. cbn [flat_map]. now rewrite app_nil_r.
+Qed.
